@@ -253,6 +253,8 @@ structure Final (P : Params) (files : List InFile) (s : Proc) : Prop where
   backlog : s.backlog = 0
   deq : s.ioDeqSeqNum = s.ioSeqNum
   pool : s.pool.ser.queue = []
+  /-- no callback has failed: what `get_status` at the end of `sync` reads -/
+  status : s.pool.ser.status = 0
   fragBlock : s.fragBlock = none
   output : packRef P files = .ok s.w.output
 
@@ -293,11 +295,12 @@ theorem run_final {P : Params} (hP : P.ans = serialAns) (hc : CodecOk P.codec) (
     rw [hall] at hwr
     refine ⟨s2, ?_, ?_⟩
     · unfold runProc; rw [hp]; exact hfn
-    · refine ⟨hq2, hb2, ?_, ?_, ?_, ?_⟩
+    · refine ⟨hq2, hb2, ?_, ?_, ?_, ?_, ?_⟩
       · rw [hb.ioSeq]; have := hb.deqLe; omega
       · have := hb.pool.queue
         rw [hi2] at this
         simpa using this
+      · exact hb.pool.status
       · rw [hb.fragBlock, hF2]; exact close_opn P _
       · unfold packRef
         rw [hf]
